@@ -245,6 +245,11 @@ def run(ck, F):
     else:
         ck.violation("R5", "location", "-", "new() does not initialise `location` from the service's location")
     rule_resolution(ck, F)
+    # "returning the response envelope": the method forwards to the emitted helper, so what the method returns for a reply is what
+    # the helper makes of it — the helper's obligations about the payload (C16.R4) are obligations of every method
+    from rules import c16 as C16
+    from rules import c04 as C04
+    C16.run(C04._Sub(ck, "R5", lambda key: key.startswith(("reply-judged", "payload-provenance")), only_rules=("R4",)), F)
 
 
 def _is_struct_of(nf, node_type_nf_str):
